@@ -378,6 +378,15 @@ def main(ctx):
                        'short-read schedule x ops; ASGI: first event x Content-Length x event script x ops), run '
                        'on the real BoundedStream and on the extracted model, every per-operation observation '
                        'compared and judged by the proved oracle; non-trivial = some operation returned bytes')
+    ctx.assumptions += [
+        'wsgi.input is the scripted FakeInput (io semantics for read/readline/readlines/next; short reads only '
+        'for read(n), each returning >= 1 byte unless at EOF) mirrored by Model.src',
+        'ASGI event scripts obey the server contract (after more_body=False or http.disconnect only '
+        'http.disconnect follows; receive() after the script answers http.disconnect)',
+        'ASGI histories are judged up to the first sized read issued while an iteration is suspended '
+        '(documented misuse, see notes/C07.md)',
+        'sizes < -1 are not generated',
+    ]
     # ---- WSGI
     wcases = []
     nw = 12000 if quick else 120000
